@@ -79,8 +79,10 @@ func (t *Transport) RoundTrip(req *http.Request) (*http.Response, error) {
 	origReq := req
 	req = req.Clone(ctx)
 
+	var upgraded bool
 	if len(res.HTTPS) > 0 && req.URL.Scheme == "http" {
 		req.URL.Scheme = "https"
+		upgraded = true
 	}
 
 	h, p, err := net.SplitHostPort(req.URL.Host)
@@ -92,6 +94,11 @@ func (t *Transport) RoundTrip(req *http.Request) (*http.Response, error) {
 		default:
 			p = "443"
 		}
+	}
+	if upgraded && p == "80" {
+		// http://host:80 upgraded is the origin https://host (port 443), not
+		// https://host:80: they must not share connections.
+		p = "443"
 	}
 	if req.Host == "" {
 		// This is the value sent in the Host / :authority header.
